@@ -17,6 +17,9 @@ CFGS = {
                ["createdirall 1:j70,j61", "createdirall 1:j70,j62", "removedir 2:j70,j61", "removedir 2:j70,j62"]),
     "ovlrm3": (["base mem", "base mem", "fs base 0", "fs base 1", "fs ovl 2 0 - 1 -"], 2,
                ["createdirall 1:j61", "createdirall 1:j62", "removedir 2:j61", "removedir 2:j62"]),
+    # what was removed was a FILE of the lower layer: nothing visible is in the way
+    "ovlrmf": (["base mem", "base mem", "fs base 0", "fs base 1", "fs ovl 2 0 - 1 -"], 2,
+               ["createfile 1:j61", "hdrop 1000", "removefile 2:j61"]),
     "phys": (["base phys", "fs base 0"], 0, []),
     "altphys": (["base phys", "fs base 0", "fs alt 0 " + vfx.hexs("/r")], 1, ["createdirall 0:j72"]),
 }
@@ -39,6 +42,9 @@ def gen_progs(rng, tier):
             sets = sets if tier != "quick" else sets[:2]
         if cname == "ovlrm3":
             sets = [["a", "b"], ["a/x", "b/deep/er"]]
+        if cname == "ovlrmf":
+            sets = [["a", "a"], ["a/x", "a/y"], ["a", "a/b/c"]]
+            sets = sets if tier != "quick" else sets[:2]
         for i, paths in enumerate(sets):
             threads = [["createdirall " + vfx.ps(target, p)] for p in paths]
             if cname in ("phys", "altphys"):
@@ -64,7 +70,11 @@ RULE = ("2-4 threads calling create_dir_all on path pairs/triples of depth 1-4 t
         "sibling directories that the threads re-create - deletion markers present, sharing one bookkeeping directory - all "
         "schedules with at most 2 preemptions) and a sample is replayed on the Coq interleaved semantics; on PhysicalFS and AltrootFS over "
         "it free-running OS threads are started behind a barrier for 300 (quick) / 5000 (thorough) rounds; oracle: every "
-        "thread returns Ok and afterwards every requested path and each ancestor is a directory")
+        "thread returns Ok and afterwards every requested path and each ancestor is a directory; the ASYNC port: concurrent tasks "
+        "calling create_dir_all through the async API on AsyncMemoryFS, altroot and overlay (after removals of a directory, of a "
+        "FILE, of two siblings), interleaved at trait-call granularity by a cooperative scheduler (a gate before every trait "
+        "call of every instance), all schedules with at most 2 preemptions, same oracle (no model replay: the interleaved "
+        "semantics is the sync one)")
 ASSUMPTIONS = ["PhysicalFS: atomicity of mkdir(2) and EEXIST are the kernel's; the interleavings are sampled, not enumerated",
                "no concurrent removals and no files in the way (the property's precondition); a removal BEFORE the threads start is part of the explored setups"]
 BUILDS = [False]
@@ -83,9 +93,44 @@ def body_of(line):
     return line.split(" :: ", 1)[1] if " :: " in line else line
 
 
+ACFGS = {
+    # concurrent TASKS through the async port (scheduler: a gate before every trait call of every wrapper; one step =
+    # one trait call); the async MemoryFS has no lock hooks, so this is the granularity of the adapters
+    "amem": (["base mem", "fs base 0"], 0, []),
+    "aalt": (["base mem", "fs base 0", "fs alt 0 " + vfx.hexs("/r")], 1, ["createdirall 0:j72"]),
+    "aovl": (["base mem", "base mem", "fs base 0", "fs base 1", "fs ovl 2 0 - 1 -"], 2, ["createdirall 1:j612f78"]),
+    "aovlrm": (["base mem", "base mem", "fs base 0", "fs base 1", "fs ovl 2 0 - 1 -"], 2, ["createdirall 1:j61", "removedir 2:j61"]),
+    # what was removed was a FILE: nothing visible is in the way, but a stale lower-layer file sits behind the marker
+    "aovlrmf": (["base mem", "base mem", "fs base 0", "fs base 1", "fs ovl 2 0 - 1 -"], 2,
+                ["createfile 1:j61", "hdrop 1000", "removefile 2:j61"]),
+    "aovlrm2": (["base mem", "base mem", "fs base 0", "fs base 1", "fs ovl 2 0 - 1 -"], 2,
+                ["createdirall 1:j70,j61", "createdirall 1:j70,j62", "removedir 2:j70,j61", "removedir 2:j70,j62"]),
+}
+
+
+def gen_async_progs(tier):
+    progs = []
+    for cname, (cfg, target, setup) in ACFGS.items():
+        if cname == "aovlrm2":
+            sets = [["p/a", "p/b"], ["p/a/x", "p/b/deep/er"]]
+        elif cname in ("aovlrm", "aovlrmf"):
+            sets = [["a", "a"], ["a/x", "a/y"], ["a", "a/b/c"], ["a/b", "a/b", "a"]]
+        else:
+            sets = PATHSETS[:8] if tier == "quick" else PATHSETS
+        for i, paths in enumerate(sets):
+            threads = [["createdirall " + vfx.ps(target, p)] for p in paths]
+            p = conclib.Prog("c17%s%d" % (cname, i), cfg, setup, threads, "pbound 2,%d" % (3000 if tier == "quick" else 40000))
+            p.paths, p.cname = paths, cname
+            progs.append(p)
+    return progs
+
+
 def run_and_compare(progs, tier):
     explored = conclib.explore(progs, "c17")
-    replayable = [p for p in progs if p.cname in ("mem", "alt", "ovl", "ovlrm", "ovlrm2", "ovlrm3")]
+    aprogs = gen_async_progs(tier)
+    explored.update(conclib.explore(aprogs, "c17a", flag="--aconc"))
+    progs = progs + aprogs
+    replayable = [p for p in progs if p.cname in ("mem", "alt", "ovl", "ovlrm", "ovlrm2", "ovlrm3", "ovlrmf")]
     model, nreplayed = conclib.replay_model(replayable, {p.name: explored[p.name] for p in replayable}, "c17",
                                             limit_per_prog=150)
     dis = []
